@@ -542,6 +542,45 @@ inductive Below : Node → Node → Prop
   | kid {i d ks k} : k ∈ ks → Below (.tag i d ks) k
   | deeper {i d ks k x} : k ∈ ks → Below k x → Below (.tag i d ks) x
 
+/-! ### pickling a document: `BeautifulSoup.__getstate__` / `__setstate__` (bs4/__init__.py:505-541)
+
+    Generic in what a tree is (`T`), in the renderer `decode` and in the parser `feed` (C05 says what their composition is):
+    what matters here is **which markup** travels in the pickle. -/
+
+/-- the part of a `BeautifulSoup` object's `__dict__` that pickling reads and writes: the tree and the `markup` attribute
+    (`None` after `__init__`, which clears it; left set by `__setstate__`, which does not) -/
+structure PDoc (T : Type) where
+  tree : T
+  markup : Option PStr
+
+/-- `__getstate__`: `d = dict(self.__dict__); d["contents"] = []; d["markup"] = self.decode()` — the markup in the pickle
+    is always the rendering of the tree as it is now -/
+def getState {T : Type} (decode : T → PStr) (d : PDoc T) : PStr := decode d.tree
+
+/-- `__setstate__`: `self.__dict__ = state; …; self.reset(); self._feed()` — the tree is rebuilt from `state["markup"]`,
+    and `self.markup` keeps that string -/
+def setState {T : Type} (feed : PStr → T) (m : PStr) : PDoc T := ⟨feed m, some m⟩
+
+/-- `pickle.loads(pickle.dumps(doc))` -/
+def pickleRoundTrip {T : Type} (decode : T → PStr) (feed : PStr → T) (d : PDoc T) : PDoc T := setState feed (getState decode d)
+
+/-- a step of a document's life: an in-place edit of its tree, or being replaced by its pickle round trip -/
+inductive PStep (T : Type) where
+  | edit (f : T → T)
+  | pickle
+
+def pRun {T : Type} (decode : T → PStr) (feed : PStr → T) : PDoc T → List (PStep T) → PDoc T
+  | d, [] => d
+  | d, .edit f :: r => pRun decode feed { d with tree := f d.tree } r
+  | d, .pickle :: r => pRun decode feed (pickleRoundTrip decode feed d) r
+
+/-- the seeded variant of `__getstate__` (`if not d.get("markup"): d["markup"] = self.decode()`): a left-over, non-empty
+    `markup` is shipped instead of the rendering -/
+def getStateStale {T : Type} (decode : T → PStr) (d : PDoc T) : PStr :=
+  match d.markup with
+  | some (c :: m) => c :: m
+  | _ => decode d.tree
+
 /-! ### `hash` -/
 
 /-- `Tag.__hash__`: `str(self).__hash__()` = `hash(self.decode())`, for any renderer that reads the tree through its
